@@ -338,6 +338,18 @@ where
                 );
                 // Continue to processing - don't return early
             }
+
+            // An application message that is already stored must not reach MLS a second
+            // time. Normally the consumed ratchet generation refuses it, but a MIP-03
+            // rollback restores the ratchet of the target epoch, so the same ciphertext
+            // would decrypt again and the stored message would be rewritten (new
+            // processed_at, possibly moving the last-message pointer).
+            if processed.state == message_types::ProcessedMessageState::Processed
+                && processed.message_event_id.is_some()
+                && let Some(mls_group_id) = processed.mls_group_id.clone()
+            {
+                return Ok(MessageProcessingResult::Unprocessable { mls_group_id });
+            }
         }
 
         // Step 1: Validate event and extract group ID
